@@ -9,7 +9,7 @@ import vlib
 KEY_OVERLAP = "overlapping-activations"
 KEY_APPEND = "failed-index-append-leaves-mapping"
 STATES = ["valid", "revoked", "activated", "absent"]
-KINDS = {"act": 0, "rev": 1, "tick": 2, "list": 3}
+KINDS = {"act": 0, "rev": 1, "tick": 2, "list": 3, "stall": 4}
 
 
 def act(listen, laddr=0, fault=-1, nocode=False):
@@ -75,6 +75,31 @@ def listing_cases(rng, n_act, n_rev, thorough):
         ths = [act(101, 0), rng.choice([rev(), act(102, 1)]), dict(LIST), dict(TICK)]
         p, q = rng.randrange(0, n_act + 1), rng.randrange(0, 5)
         out.append(case(ths, [0] * p + [1] * q + [3] + rand_merge(rng, [n_act + 4 - p, 8, 8, 0])))
+    return out
+
+
+def stall(d):
+    """d seconds pass on the store's clock (key lifetimes run out); the callers' own clock is not moved, so the sum of the
+    stalls of a case stays well below the 600 s activation window"""
+    return {"kind": "stall", "listen": d, "laddr": 0, "fault": -1, "nocode": False}
+
+
+def stall_cases(rng, n_act, thorough):
+    """TIME: caller 0 parked after each of its actions (in particular after its claim), then a stall smaller / larger than
+    every lifetime the code uses below the window (admission marker 30 s; a 30 s claim lease would lapse too), then
+    another caller — other client, same client, revoker — runs to completion, then caller 0 goes on"""
+    out = []
+    for w in ("", "cluster", "shared"):
+        for p in range(0, n_act + 1):
+            for d in (10, 31, 200):
+                for other in (act(102, 1), act(101, 2), rev()):
+                    out.append(case([act(101, 0), dict(other), stall(d)], [0] * p + [2] + [1] * 12 + [0] * 14, world=w))
+            out.append(case([act(101, 0), act(102, 1), stall(20), stall(25)], [0] * p + [2] + [1] * 3 + [3] + [1] * 10 + [0] * 14, world=w))
+    for _ in range(8000 if thorough else 250):          # stalls anywhere in random interleavings, with faults
+        ths = [act(101, 0, fault=rng.choice([-1, -1, -1] + list(range(10)))), rng.choice([act(102, 1), act(101, 2), rev()]),
+               stall(rng.choice([5, 29, 31, 60, 250])), stall(rng.choice([1, 31, 100]))]
+        out.append(case(ths, rand_merge(rng, [n_act + 3, n_act + 3, 1, 1]), qmax=rng.choice([1, 2, 50]),
+                        world=rng.choice(["", "", "cluster", "shared"])))
     return out
 
 
@@ -359,6 +384,8 @@ def run(ctx, only_cases=None):
         # read paths with side effects as callers (never in shared worlds: the clean-up goroutine cannot be told apart there)
         n_act = (9 if claim else 8) + (2 if admit else 0)
         cases += listing_cases(ctx.rng, n_act, 4 if claim else 3, thorough)
+        # TIME: stalls of the store's clock between a caller's actions
+        cases += stall_cases(ctx.rng, n_act, thorough)
         # last-second cells: the same overlapping schedules on a code that lives 900 ms
         cases += [last_second(c) for c in parked_cases("") + parked_cases("cluster")]
         cases += [last_second(c) for c in ctx.rng.sample(ex, min(len(ex), 20000 if thorough else 200))]
@@ -409,13 +436,14 @@ def run(ctx, only_cases=None):
     nontriv = set()
     stats = {"activators": 0, "revokers": 0, "ticks": 0, "faults_hit": 0, "successes": 0, "overlapping_runs": 0,
              "initial_state": {s: 0 for s in STATES}, "structured": 0, "malformed": 0, "ambiguous_timing_skipped": 0,
-             "listing_callers": 0, "last_second_cells": 0, "cluster_world_runs": 0, "shared_service_instance_runs": 0, "entries_skipped_caller_blocked_outside_store": 0,
+             "listing_callers": 0, "last_second_cells": 0, "stalls": 0, "cluster_world_runs": 0, "shared_service_instance_runs": 0, "entries_skipped_caller_blocked_outside_store": 0,
              "model_unmodelled_branch_skipped": unmodelled}
     for c, o in zip(cases, outs):
         stats["activators"] += sum(t["kind"] == "act" for t in c["threads"])
         stats["revokers"] += sum(t["kind"] == "rev" for t in c["threads"])
         stats["ticks"] += 1 if o["ticked"] else 0
         stats["listing_callers"] += sum(t["kind"] == "list" for t in c["threads"])
+        stats["stalls"] += sum(1 for t, ti in zip(o["threads"], c["threads"]) if ti["kind"] == "stall" and t["res"] == 100)
         stats["last_second_cells"] += 1 if c.get("ttl_ms") else 0
         stats["cluster_world_runs"] += 1 if c.get("world") == "cluster" else 0
         stats["shared_service_instance_runs"] += 1 if c.get("world") == "shared" else 0
